@@ -53,7 +53,7 @@ Theorem keyed_state_is_map :
   forall (K : KV) (contents : kv_st K -> kvlist),
     (forall k v s, contents (kv_put K k v s) = sm_put k v (contents s)) ->
     (forall k s, contents (kv_del K k s) = sm_del k (contents s)) ->
-    (forall p s, fst (kv_scan K p s) = sm_scan p (contents s) /\ contents (snd (kv_scan K p s)) = contents s) ->
+    (forall p s, fst (kv_scan K p s) = Some (sm_scan p (contents s)) /\ contents (snd (kv_scan K p s)) = contents s) ->
     (forall cur s, contents (kv_restore K cur s) = contents s) ->
   forall (count : N) (accept : bytes -> Z -> bool) (h : handler) (steps : list step) (s0 : kv_st K),
     contents s0 = [] -> handler_ok h -> Forall step_ok steps ->
@@ -61,9 +61,50 @@ Theorem keyed_state_is_map :
               sy_trace y = o_trace (o_run h o_init steps).
 Proof.
   intros K contents Hp Hd Hs Hr count accept h steps s0.
-  exact (refines_per_key_map K contents Hp Hd Hs Hr (key_group count) accept h steps s0).
+  apply (refines_per_key_map K contents Hp Hd); try assumption.
+  - intros p s. destruct (Hs p s) as [E1 E2]. split; [|exact E2]. rewrite E1. intros l [= <-]. reflexivity.
+  - intros p s. destruct (Hs p s) as [E1 _]. rewrite E1. discriminate.
 Qed.
 Print Assumptions keyed_state_is_map.
+
+(* ---------------------------------------------------------------- storage read faults: never a truncated state
+   A scan may end with an error ([kv_scan] returns None; entries it yielded before are dropped by GetState, which
+   looks at the error after consuming the scan). Hypotheses: a scan never changes the contents, and IF it ends without
+   an error it yielded the prefix scan. Then for every history: the model never panics, and the handler-visible trace
+   is that of the specification machine on the history WITHOUT some of its batches ([pruned]) - the batches whose read
+   failed: they end with BFailed (the error processEventBatch returns), the handler is not called and nothing is
+   applied ([failed_read_applies_nothing]). So every handler call receives the COMPLETE fold of everything applied
+   before it, or does not happen. *)
+Theorem keyed_state_is_map_with_read_faults :
+  forall (K : KV) (contents : kv_st K -> kvlist),
+    (forall k v s, contents (kv_put K k v s) = sm_put k v (contents s)) ->
+    (forall k s, contents (kv_del K k s) = sm_del k (contents s)) ->
+    (forall p s, (forall l, fst (kv_scan K p s) = Some l -> l = sm_scan p (contents s)) /\
+                 contents (snd (kv_scan K p s)) = contents s) ->
+    (forall cur s, contents (kv_restore K cur s) = contents s) ->
+  forall (count : N) (accept : bytes -> Z -> bool) (h : handler) (steps : list step) (s0 : kv_st K),
+    contents s0 = [] -> handler_ok h -> Forall step_ok steps ->
+    exists y steps', run K (key_group count) accept h (init_sys K s0) steps = Some y /\
+                     pruned steps steps' /\ sy_trace y = o_trace (o_run h o_init steps').
+Proof.
+  intros K contents Hp Hd Hs Hr count accept h steps s0.
+  exact (refines_per_key_map_faulty K contents Hp Hd Hs Hr (key_group count) accept h steps s0).
+Qed.
+Print Assumptions keyed_state_is_map_with_read_faults.
+
+Theorem failed_read_applies_nothing :
+  forall (K : KV) (contents : kv_st K -> kvlist),
+    (forall p s, (forall l, fst (kv_scan K p s) = Some l -> l = sm_scan p (contents s)) /\
+                 contents (snd (kv_scan K p s)) = contents s) ->
+  forall (count : N) (accept : bytes -> Z -> bool) (h : handler) (evs : list event) (s s1 : kv_st K) A,
+    Forall (fun ev => key_ok (fst ev)) evs -> Inv K contents (key_group count) s A ->
+    fetch_states K (key_group count) (distinct_keys [] (map fst evs)) s = FErr s1 ->
+    process_batch K (key_group count) accept h evs s = Some (BFailed, s1) /\ contents s1 = contents s.
+Proof.
+  intros K contents Hs count accept h evs s s1 A.
+  exact (failed_scan_applies_nothing K contents Hs (key_group count) accept h evs s s1 A).
+Qed.
+Print Assumptions failed_read_applies_nothing.
 
 (* the composition is not vacuous: the list-based DKV specification satisfies the four hypotheses *)
 Theorem keyed_state_is_map_over_spec :
@@ -184,4 +225,14 @@ Example ex_run_over_lsm :
             [([97], [([], [([], [])]); ([1], [([2], [3])])])];
             [([97], [([], [([], [])])])];
             [([97], [([], [([], [])]); ([1], [([2], [3])])])] ], true).
+Proof. vm_compute. reflexivity. Qed.
+
+(* read faults: the second batch's read fails (plan: scans 1,2 succeed, 3 fails): no call, nothing applied, and the
+   third batch sees exactly what the first left *)
+Example ex_run_faulty :
+  option_map (fun y : sys flist_kv => map (fun rr => rq_states (fst rr)) (sy_trace y))
+    (run flist_kv (key_group 7) (fun _ _ => true) ex_handler (init_sys flist_kv ([], [false; false; true]))
+       [SBatch [([97], []); ([97; 98], [])]; SBatch [([97], [])]; SBatch [([97], [])]])
+  = Some [ [([97], []); ([97; 98], [])];
+           [([97], [([], [([], [])]); ([1], [([2], [3])])])] ].
 Proof. vm_compute. reflexivity. Qed.
